@@ -1068,6 +1068,7 @@ class DiskRefsContainer(RefsContainer):
                 peeled_refs = (
                     dict(self._peeled_refs) if self._peeled_refs is not None else None
                 )
+                claim_peeled = True
 
                 for ref, target in new_refs.items():
                     # sanity check
@@ -1083,12 +1084,26 @@ class DiskRefsContainer(RefsContainer):
                         # not describe the new one.
                         peeled_refs.pop(ref, None)
 
+                    if (
+                        target is not None
+                        and peeled_refs is not None
+                        and ref.startswith(LOCAL_TAG_PREFIX)
+                        and packed_refs.get(ref) != target
+                        and ref not in peeled_refs
+                    ):
+                        # Whether the new target is a tag object is not known
+                        # here, and under the "peeled" trait a tag ref without
+                        # a peeled line is declared not to be one.
+                        claim_peeled = False
+
                     if target is not None:
                         packed_refs[ref] = target
                     else:
                         packed_refs.pop(ref, None)
 
-                write_packed_refs(f, packed_refs, peeled_refs)
+                write_packed_refs(
+                    f, packed_refs, peeled_refs if claim_peeled else None
+                )
         finally:
             # Do not stat the path and associate that identity with the data
             # just written: another writer can replace packed-refs after the
